@@ -254,6 +254,48 @@ def helpers(ctx, obs):
     ctx.check(rule, 'fits.py:least_squares#dy_f', len(dyf) == 1 and unparse(dyf[0].value) == '[o.dvalue for o in y_all]', 'dy_f are the errors of the data in data order', 'dy_f = %s' % [unparse(s.value) for s in dyf])
 
 
+def scale_free_guards(ctx, obs):
+    """the correlation is invariant under rescaling of either observable: a guard on the accumulated product of fluctuations
+    must be scale free (x == 0, or a comparison of two such products); a tolerance test (isclose / abs(x) < 1e-8) drops real
+    correlations of small-valued observables"""
+    rule = 'C06-D2'
+    f = obs.func('_covariance_element')
+    tainted = set()
+    for s_ in statements(f):
+        if isinstance(s_, (ast.Assign, ast.AugAssign)) and any(isinstance(c, ast.Call) and call_name(c) == 'calc_gamma' for c in ast.walk(s_.value)):
+            t = s_.targets[0] if isinstance(s_, ast.Assign) else s_.target
+            if isinstance(t, ast.Name):
+                tainted.add(t.id)
+    if not tainted:
+        raise Unrecognised('no accumulation of calc_gamma results found')
+    n = 0
+    for node in walk(f):
+        test = None
+        if isinstance(node, (ast.If, ast.IfExp, ast.While)):
+            test = node.test
+        if test is None:
+            continue
+        names = {x.id for x in ast.walk(test) if isinstance(x, ast.Name)}
+        hit = sorted(names & tainted)
+        if not hit:
+            continue
+        n += 1
+        key = 'obs.py:_covariance_element#guard[%s]' % unparse(test)[:50]
+        bad = None
+        for c in ast.walk(test):
+            if isinstance(c, ast.Call) and call_name(c) in ('isclose', 'allclose'):
+                bad = 'tolerance test %s' % unparse(c)
+            if isinstance(c, ast.Compare):
+                consts = [const(x) for x in [c.left] + list(c.comparators) if const(x) is not None]
+                if any(isinstance(v, (int, float)) and v != 0 for v in consts):
+                    bad = 'comparison with the dimensionful constant in `%s`' % unparse(c)
+                if any(isinstance(op, (ast.Lt, ast.LtE, ast.Gt, ast.GtE)) for op in c.ops) and any(call_name(x) == 'abs' for x in ast.walk(c) if isinstance(x, ast.Call)):
+                    bad = 'magnitude threshold `%s`' % unparse(c)
+        ctx.check(rule, key, bad is None, 'guard on %s is scale free (exact zero test)' % hit[0],
+                  '%s on %s (a sum of products of fluctuations): multiplying an observable by a constant changes which branch is taken, small observables lose their correlation' % (bad, hit[0]), obs.loc(node))
+    ctx.floor('guards on accumulated fluctuation products', n, 1)
+
+
 def run(ctx):
     ctx.rule('C06-D1', 'covariance(): fill, mirror, corr, rescale')
     ctx.rule('C06-D2', '_covariance_element: zero for disjoint, common names only, g1^T C g2, normalisation')
@@ -262,6 +304,7 @@ def run(ctx):
     obs = ctx.repo.mod('obs')
     ctx.guarded('C06-D1', 'obs.py:covariance', cov_function, ctx, obs)
     ctx.guarded('C06-D2', 'obs.py:_covariance_element', cov_element, ctx, obs)
+    ctx.guarded('C06-D2', 'obs.py:_covariance_element@scale-free', scale_free_guards, ctx, obs)
     ctx.guarded('C06-D3', 'obs.py@helpers', helpers, ctx, obs)
     from . import C04
     ctx.guarded('C06-D2', 'obs.py:_intersection_idx', C04.merge_idx_rules, ctx, obs, 'C06-D2', (('_intersection_idx', 'intersection'),))
@@ -269,6 +312,7 @@ def run(ctx):
 
 
 SELFTEST = [
+    ('zero-covariance-by-threshold', 'pyerrors/obs.py', "        if gamma == 0.0:\n            continue\n\n        gamma_div = 0.0", "        if abs(gamma) < 1e-12:\n            continue\n\n        gamma_div = 0.0", 'C06-D2'),
     ('fill-wrong-pair', 'pyerrors/obs.py', "cov[i, j] = _covariance_element(obs[i], obs[j])", "cov[i, j] = _covariance_element(obs[i], obs[i])", 'C06-D1'),
     ('mirror-no-diag', 'pyerrors/obs.py', "cov = cov + cov.T - np.diag(np.diag(cov))", "cov = cov + cov.T", 'C06-D1'),
     ('corr-one-sided', 'pyerrors/obs.py', "corr = np.diag(1 / np.sqrt(np.diag(cov))) @ cov @ np.diag(1 / np.sqrt(np.diag(cov)))", "corr = np.diag(1 / np.diag(cov)) @ cov", 'C06-D1'),
